@@ -7,7 +7,7 @@ from props import _wf
 META = {
     "level": "proof",
     "technique": "Coq: strict recogniser wf_archive/wf_parts written from the format description; general writer theorems (chunk-level writer on every list of writable entries; the library's builders and streaming writers for every codec x cipher x mode configuration and slicing; every successful split into parts) — the output is accepted and strictly decoded to the entries written; byte-level agreement of the strict reader with the library's tolerant stream, slice and part-chaining readers on everything the recogniser accepts; recogniser run against an independent Rust reference reader (no libpna, primitives only) on library- and CLI-written archives and on single-rule mutations; every produced archive decoded by that reader and compared with its source",
-    "level_text": "Theorems about the Gallina strict recogniser and the writer models (Coq, closed under the global context, universally quantified — no closed instances): (1) writer_wf: for every list of entries satisfying the explicit predicate `writable` the archive written by the chunk-level writer model is accepted by wf_archive and strict_decode returns the entries; (2) pipeline writer_wf: entries built by EntryBuilder/SolidEntryBuilder are writable and the chunk sequences of Archive::write_file and SolidArchive are accepted, for every configuration, every slicing of the input, an arbitrary compressor and every block cipher keeping 16-byte blocks (CBC: IV + a positive whole number of blocks by PKCS#7; CTR: IV + data), so every archive mixing them is well-formed and read back; (3) strict_agrees at byte level: on every file or part chain the recogniser accepts, the tolerant readers (entries/raw_entries with their fuel, the slice reader, read_parts) end with FinOk and return exactly the strict decoder's entries; (4) split_wf: the parts of every successful write_split of writable entries are accepted by wf_parts, decode to the same entries up to data cuts and are read back by read_parts. (5) `writable` is exact (every strictly decoded entry is writable), so re-writing all or a selection of the decoded entries of a well-formed archive (copy, concat, delete) is well-formed; (6) transform_wf_partial: for chmod, chown, xattr, strip and delete with both strategies the entry-level run — tolerant read, each entry's logical view through the transformer of Transform.v (the model the C10 check compares with the CLI), the answer put back with with_metadata/with_xattrs/with_extra_chunks, written again — maps well-formed archives to well-formed archives for arguments in range; partial because acl set/migrate are not covered and expanding/re-creating a solid entry are parameters with hypotheses (the pipeline theorem build_solid_writable is the rebuild hypothesis for the pipeline model). The check runs the recogniser on the output of every editing command. The recogniser is tied to an independent reference reader by running both on every archive of the run (exact agreement of verdict and reason) and that reader decodes every archive with primitive crypto/compression calls only and compares with the known source contents.",
+    "level_text": "Theorems about the Gallina strict recogniser and the writer models (Coq, closed under the global context, universally quantified — no closed instances): (1) writer_wf: for every list of entries satisfying the explicit predicate `writable` the archive written by the chunk-level writer model is accepted by wf_archive and strict_decode returns the entries; (2) pipeline writer_wf: entries built by EntryBuilder/SolidEntryBuilder are writable and the chunk sequences of Archive::write_file and SolidArchive are accepted, for every configuration, every slicing of the input, an arbitrary compressor and every block cipher keeping 16-byte blocks (CBC: IV + a positive whole number of blocks by PKCS#7; CTR: IV + data), so every archive mixing them is well-formed and read back; (3) strict_agrees at byte level: on every file or part chain the recogniser accepts, the tolerant readers (entries/raw_entries with their fuel, the slice reader, read_parts) end with FinOk and return exactly the strict decoder's entries; (4) split_wf: the parts of every successful write_split of writable entries are accepted by wf_parts, decode to the same entries up to data cuts and are read back by read_parts. (5) `writable` is exact (every strictly decoded entry is writable), so re-writing all or a selection of the decoded entries of a well-formed archive (copy, concat, delete) is well-formed; (6) transform_wf_partial: for chmod, chown, xattr, strip and delete with both strategies the entry-level run — tolerant read, each entry's logical view through the transformer of Transform.v (the model the C10 check compares with the CLI), the answer put back with with_metadata/with_xattrs/with_extra_chunks, written again — maps well-formed archives to well-formed archives for arguments in range; partial because acl set/migrate are not covered and expanding/re-creating a solid entry are parameters with hypotheses (the pipeline theorem build_solid_writable is the rebuild hypothesis for the pipeline model). The check runs the recogniser on the output of every editing command. The recogniser is tied to an independent reference reader by running both on every archive of the run (exact agreement of verdict and reason) and that reader decodes every archive with primitive crypto/compression calls only and compares with the known source contents. For what pna create writes (Props/C14_create.v, C14_phc.v) the writable hypotheses are derived from the tree-side premises of C02 and from the fact that every PHSF string the writer prints has PHC shape: the archive of create / create --solid and every part set of --split / --solid --split is accepted by the strict recogniser, strictly decodes to the entries written, and every part is a well-formed part of at most max bytes.",
     "level_note": "Trusted: Coq kernel + vm_compute; extraction and the OCaml driver (cross-checked each run); the reference reader harness/src/refdec.rs and the primitive crates it calls (aes, camellia, pbkdf2, argon2, flate2, zstd, liblzma, crc32fast). `writable`, `writable_spec`, `strict_ctx`, `small_pieces`, `plain_inner` (coq/Proofs/WfWriterFacts.v, WfPipelineFacts.v) are hypotheses of the writer theorems: they list what the recogniser needs (version 0.0, valid non-empty relative name, PHSF of PHC shape iff encrypted, 32-byte key and 16-byte IV, payloads and sink writes < 2^32, ancillary extras with valid types, metadata ranges); that the CLI only hands such inputs to the writers is covered by running the recogniser on every archive the CLI writes (one violation was found this way and repaired: create -r . --keep-dir wrote a directory entry with the empty name).",
 }
 
